@@ -135,6 +135,41 @@ def check(run: Run) -> None:
             failures += 1
             run.report("C08/residue", {**c.describe(), "ops": [{"op": "parse after failed parses", "data": data.hex(), "observed": repr(again)[:300], "expected": repr(fk)[:300]}]})
 
+    # ---- a pointer dereference that fails (short read or exception while the target is read) leaves the stream where it was ----
+    for compiled in (False, True):
+        for tgt, tsz in (("uint32", 4), ("T", 3), ("char", 5)):
+            text = "struct T { uint8 a; uint16 b; }; struct main { uint8 k; " + tgt + " *p; uint8 after; };"
+            cs2 = structs.load(text, endian="<", pointer="uint16", compiled=compiled)
+            data2 = bytes([7, 12, 0, 9]) + bytes([1, 8, 0, 10]) + bytes([0x11, 0x22, 0x33, 0x44]) + b"abcd\x00" + bytes(4)
+            for mode in ("short", "raise"):
+                for k in range(1, 9):
+                    n_faults += 1
+                    st = FaultyStream(data2, 10 ** 9, mode)
+                    try:
+                        v = cs2.main(st)
+                    except Exception:  # noqa: BLE001
+                        continue
+                    pos = st.tell()
+                    st.calls, st.k = 0, k                    # the fault hits the k-th read call of the dereference
+                    try:
+                        v.p.dereference()
+                        failed = False
+                    except (Exception, structs.Hang):  # noqa: BLE001
+                        failed = True
+                    st.k = 10 ** 9
+                    here = st.tell()
+                    try:
+                        nxt = cs2.main(st)
+                        nk = (nxt.k, nxt.after)
+                    except Exception as e:  # noqa: BLE001
+                        nk = type(e).__name__
+                    if here != pos or nk != (1, 10):
+                        failures += 1
+                        run.report("C08/fault/dereference", {"definition": text, "cstruct_kwargs": {"endian": "<", "pointer": "uint16"}, "load_kwargs": {"compiled": compiled, "align": False},
+                                   "ops": [{"op": "dereference with stream fault, then parse the next record", "data": data2.hex(), "read_call": k, "mode": mode, "dereference_failed": failed,
+                                            "observed": {"stream position": here, "next record (k, after)": nk}, "expected": {"stream position": pos, "next record (k, after)": (1, 10)}}]})
+                        break
+
     mism = run_items(run, items)
     report_unexplained(run, mism, explained, "corr_cut (Model.Reader.read_top on truncated inputs vs the implementation)")
     F.obligation_fallback(run, ok, bool(failures or mism))
